@@ -33,15 +33,15 @@ PROPS = {
                 inv=["Inv_C10"], step=["Step_C10"]),
     "C04": dict(fam=["tandem", "prio", "preempt", "sched", "schedpre", "core1", "schedblock", "preblock", "ppzero"],
                 mc=["tandem", "preempt", "sched", "schedpre", "ppsched", "jsqsched", "overblock"], inv=["Inv_C04"], step=["Step_C04"]),
-    "C12": dict(fam=["sched", "schedpre", "slot", "slotpre", "slotren", "preblock", "ppsched", "ppzero", "slotblock"], mc=["sched", "schedpre", "slot", "ppsched", "slotpre", "renegesched", "slotblock", "slotren"], inv=["Inv_C12"], step=["Step_C12"]),
+    "C12": dict(fam=["sched", "schedpre", "slot", "slotpre", "slotren", "preblock", "ppsched", "ppzero", "slotblock", "sharedrota"], mc=["sched", "schedpre", "slot", "ppsched", "slotpre", "renegesched", "slotblock", "slotren"], inv=["Inv_C12"], step=["Step_C12"]),
     "C05": dict(fam=["core1", "tandem", "prio", "preempt", "renege", "cls", "sched", "schedpre", "ccw"],
                 mc=["core1", "tandem", "prio", "preempt", "renege", "sched", "schedpre", "ppsched", "renegesched"], inv=["Inv_C05"], step=["Step_C05"]),
     "C08": dict(fam=["prio", "preempt", "cls", "renege", "ccw", "sched", "slot"], mc=["prio", "preempt", "cls", "ccw", "slot", "ppsched", "slotpre"], inv=[], step=["Step_C08"]),
     "C09": dict(fam=["route", "cls", "jsqsched", "tandem", "prio", "fpbjsq"], mc=["route", "cls", "tandem", "jsqsched", "jockey"], inv=["Inv_C09"], step=["Step_C09"]),
     "C11": dict(fam=["preempt", "ppccw"], mc=["preempt", "ppccw"], inv=["Inv_C11"], step=["Step_C11"]),
-    "C13": dict(fam=["renege", "core1", "jockey", "slotren", "renegesched"], mc=["renege", "jockey", "renegesched", "slotren"], inv=["Inv_C13"], step=["Step_C13"]),
+    "C13": dict(fam=["renege", "core1", "jockey", "slotren", "renegesched", "ccwren"], mc=["renege", "jockey", "renegesched", "slotren"], inv=["Inv_C13"], step=["Step_C13"]),
     "C16": dict(fam=["pause"], mc=["pause"], inv=["Inv_C04", "Inv_C01"], step=["Step_C16"]),
-    "C17": dict(fam=["trk", "trkccw", "trkreroute"], mc=["trk", "dead"], inv=["Inv_C17"], step=["Step_C17"]),
+    "C17": dict(fam=["trk", "trkccw", "trkreroute", "trkclsren", "trkblock3"], mc=["trk", "dead"], inv=["Inv_C17"], step=["Step_C17"]),
     "C18": dict(fam=["dead", "dead3", "exdead"], mc=["dead"], inv=["Inv_C18"], step=["Step_C18"]),
     "C19": dict(fam=["ps", "psfifo", "psprio"], mc=["ps", "psprio"], inv=["Inv_C19"], step=["Step_C19"]),
     "C20": dict(fam=["exact", "eps", "exactT", "exmix"], mc=["exact"], inv=[], step=["Step_C20"]),
@@ -49,7 +49,7 @@ PROPS = {
                 mc=["core1", "stopcount", "renegesched", "jsqsched", "ppblock"], inv=[], step=["Step_C14"]),
 }
 
-ALLFAM = ["mix", "mix2", "mix2", "ppccw", "eps", "exactT", "fpbjsq", "exdead", "pbar", "exmix", "psprio", "trkreroute", "slotren", "preblock", "overblock", "trkccw", "ppblock", "ppzero", "slotblock", "slotpreblock", "pause", "date0", "jsqsched", "dead3", "jockey", "slotpre", "renegesched", "schedblock", "infblock", "ppsched", "ps", "core1", "tandem", "prio", "preempt", "cls", "clsren", "renege", "route", "sched", "schedpre", "schedblock",
+ALLFAM = ["mix", "mix2", "mix2", "ppccw", "eps", "exactT", "fpbjsq", "exdead", "pbar", "exmix", "psprio", "trkreroute", "ccwren", "trkclsren", "trkblock3", "sharedrota", "slotren", "preblock", "overblock", "trkccw", "ppblock", "ppzero", "slotblock", "slotpreblock", "pause", "date0", "jsqsched", "dead3", "jockey", "slotpre", "renegesched", "schedblock", "infblock", "ppsched", "ps", "core1", "tandem", "prio", "preempt", "cls", "clsren", "renege", "route", "sched", "schedpre", "schedblock",
           "slot", "ccw", "trk", "reroute", "stopcount"]
 
 # vacuity gates (DESIGN section 5): witness tags that the validated traces of a check must contain at least once,
@@ -507,7 +507,8 @@ def run_pair_check(prop, tier, seed):
     for d, v in zip(docs, verdicts):
         for clause in v["fails"]:
             expl = [f for f in open_f if clause in f.get("signature", {}).get("clauses", [])
-                    and (d.get("history") in f["signature"].get("histories", [d.get("history")]))]
+                    and (d.get("history") in f["signature"].get("histories", [d.get("history")]))
+                    and ("spf" not in f["signature"] or (d.get("scenario") or {}).get("spf") == f["signature"]["spf"])]
             if expl:
                 kf.append((expl[0], clause, d))
             else:
